@@ -88,6 +88,10 @@ func newSubnet(config SubnetConfig) (*dhcpSubnet, error) {
 	if subnet.DNSServer.IsUnspecified() {
 		return nil, fmt.Errorf("invalid DNSServer")
 	}
+	// the options below carry four bytes per address
+	if !subnet.DHCPServer.Is4() || !subnet.DefaultGW.Is4() || !subnet.DNSServer.Is4() {
+		return nil, fmt.Errorf("not an ipv4 address: server=%s gw=%s dns=%s", subnet.DHCPServer, subnet.DefaultGW, subnet.DNSServer)
+	}
 
 	// Common options request:
 	//   [1 121 3 6 15 119 252] - iphone
